@@ -172,9 +172,13 @@ def trimModelExpect (d : Nat) (fn : String) (args out : List String) : Option St
   | some ([ax, ay, az], [bx, b_y, bz], [cx, cy, cz]) =>
     let A : V3 Float := ⟨ax, ay, az⟩; let B : V3 Float := ⟨bx, b_y, bz⟩; let C : V3 Float := ⟨cx, cy, cz⟩
     let cc := triCircumcircle3 A B C
+    let sn := triScaledNormal3 A B C
+    let wantN := match triNormal3 A B C with | none => ["none"] | some v => [ff v.x, ff v.y, ff v.z]
     if field "per" 1 != [ff (triPerimeter3 A B C)] then some s!"fail non-finite-or-model-differs Triangle::perimeter {tag fn args}"
     else if field "cc" 4 != [ff cc.1.x, ff cc.1.y, ff cc.1.z, ff cc.2] then
       some s!"fail non-finite-or-model-differs Triangle::circumcircle {tag fn args}"
+    else if field "sn" 3 != [ff sn.x, ff sn.y, ff sn.z] then some s!"fail non-finite-or-model-differs Triangle::scaled_normal {tag fn args}"
+    else if field "n" wantN.length != wantN then some s!"fail non-finite-or-model-differs Triangle::normal {tag fn args}"
     else none
   | some ([ax, ay], [bx, b_y], [cx, cy]) =>
     let A : V2 Float := ⟨ax, ay⟩; let B : V2 Float := ⟨bx, b_y⟩; let C : V2 Float := ⟨cx, cy⟩
